@@ -49,7 +49,9 @@ LEAN_MODULES = ["LunaVerif.Props.C20", "LunaVerif.Lemmas.C20CycAbs", "LunaVerif.
                 "LunaVerif.Lemmas.C20DeserRx", "LunaVerif.Lemmas.C20DeviceDecInv",
                 "LunaVerif.Lemmas.C20DeviceDecInvExamples",
                 # ... and with the handshake detector (C04 Det.step): 'no host ACK while the control slot is busy' proved
-                "LunaVerif.Lemmas.C20DeviceDet", "LunaVerif.Lemmas.C20DeviceDetExamples"]
+                "LunaVerif.Lemmas.C20DeviceDet", "LunaVerif.Lemmas.C20DeviceDetExamples",
+                # ... full-speed-only build: the reset sequencer (C19 model) never transmits and keeps FULL speed
+                "LunaVerif.Lemmas.C20ResetSilent", "LunaVerif.Lemmas.C20DeviceFs", "LunaVerif.Lemmas.C20DeviceFsExamples"]
 DRIVER = "Driver/C20.lean"
 REQUIRED_THEOREMS = ["mux_single_source", "generator_idle_unless_stream_valid", "handshake_idle_unless_requested",
                      "every_response_is_handshake_or_crc_valid_data", "response_only_after_addressed_token_or_data",
@@ -79,7 +81,10 @@ REQUIRED_THEOREMS = ["mux_single_source", "generator_idle_unless_stream_valid", 
                      "dec2_closed_transmitters_exclusive", "dec2_closed_tx_only_in_response_window",
                      # handshake detector composed in: handshakes_in.ack no longer an input
                      "det_facts", "decHolds2_of_det", "det_closed_tx_never_during_rx",
-                     "det_closed_transmitters_exclusive", "det_closed_tx_only_in_response_window"]
+                     "det_closed_transmitters_exclusive", "det_closed_tx_only_in_response_window",
+                     # full-speed-only device: reset sequencer silent is a theorem
+                     "fs_only_silent", "fs_closed_tx_never_during_rx", "fs_closed_transmitters_exclusive",
+                     "fs_closed_tx_only_in_response_window"]
 RULE = ("cases = 'mux' (number of inputs x random valid/data patterns, one-hot and overlapping) and 'full' (descriptor set, "
         "endpoint set {bulk IN, bulk OUT, status}, extra handlers) x adaptive LegalHost script (control transfers, bulk IN "
         "with lost/corrupted handshakes and retries, bulk OUT with retransmissions / overflow / PING, status polls, "
@@ -138,6 +143,12 @@ ASSUMPTIONS = dev_ctl.ASSUMPTIONS + [
     "chirp in the history); utmi.rx_data < 256; (3) configuration: timers strobe at the speed, delay + L + 2 < T, 3 <= L, "
     "the four endpoint numbers differ as stated, decoder speed full / low (hs = false). handshakes_in.ack, received, "
     "setup_decoder.ack, the SetupPacket registers and timer.start are computed by the composed models, not assumed",
+    "full-speed-only closed device (fs_closed_tx_never_during_rx, fs_closed_transmitters_exclusive, "
+    "fs_closed_tx_only_in_response_window; Lemmas/C20ResetSilent.lean, C20DeviceFs.lean): as the previous item, but clause (f) "
+    "is replaced by: the reset_sequencer.tx.valid column of the history is what the C19 model of USBResetSequencer drives "
+    "for SOME history of its inputs with full_speed_only = 1 and low_speed_only = 0 in every cycle (what USBDevice ties "
+    "them to on a plain UTMI bus: always_fs); line_state, VBUS, bus_busy, disconnect arbitrary (fs_only_silent: then "
+    "tx.valid = 0 and current_speed = FULL in every cycle). What is left of decHolds3 is decHolds4 = (e) + rx_data < 256",
 ]
 PARTIAL = ("Proved: the transaction-level theorems for every state and event of the event-level model (tied to the real device "
            "event by event), and at the cycle level 'tx_valid implies not rx_active', 'tx_valid only inside a response window', "
@@ -193,7 +204,12 @@ PARTIAL = ("Proved: the transaction-level theorems for every state and event of 
            "armed or sending' follows from hostOk too (the detector strobes ack in the cycle after rx_active fell, when "
            "the window was closed and nothing is owed): det_closed_tx_never_during_rx / _transmitters_exclusive / "
            "_tx_only_in_response_window hold under hostHolds + decHolds3, where decHolds3 is only: (e) the legal-host "
-           "clause on start_position, (f) reset sequencer silent, rx_data < 256. STILL ASSUMED / NOT proved: (e) and (f) "
+           "clause on start_position, (f) reset sequencer silent, rx_data < 256. For a full-speed-only build (f) is a theorem as well "
+           "(fs_only_silent over the C19 reset sequencer model: with full_speed_only = 1, low_speed_only = 0 the chirp "
+           "states are unreachable, tx.valid = 0 and current_speed = FULL in every cycle, for every line_state / VBUS "
+           "history; fs_closed_* under hostHolds + decHolds4 = (e) + rx_data < 256; only the tx.valid wire of the reset "
+           "sequencer is composed, the constancy of the speed is proved of the same model but the packet layer's speed "
+           "stays a configuration constant). STILL ASSUMED / NOT proved: (e), and (f) for builds that may chirp, "
            "are environment assumptions (see ASSUMPTIONS); kernel-evaluated necessity examples: hs = true makes the decoder "
            "ACK three cycles before the receiver's pulse. The slot-contract columns of the 'cyc' cases keep checking the "
            "control endpoint's contract on the real gateware in every co-simulated cycle; the WIRING of the closed "
